@@ -1,1 +1,2 @@
 //! Seeded generators shared by checks.
+pub mod topology;
